@@ -113,6 +113,18 @@ func (w *World) verifyFunc(fn *ssa.Function, ct *Contract, mode Mode) (res *Func
 			e.inputs = append(e.inputs, NamedTerm{fmt.Sprintf("%s#%d", p.Name(), i), t})
 		}
 	}
+	// captured variables of a function literal verified on its own: go/ssa captures by reference, so each free
+	// variable is a non-nil pointer to an unknown (well-formed) heap location
+	for _, fv := range fn.FreeVars {
+		v := e.freshVal(fv.Type(), "freevar."+fv.Name())
+		e.assume(e.wfVal(v, st.alloc))
+		if pv, ok := v.(PtrV); ok {
+			e.assume(Not(Eq(pv.Rid, e.ridLit(0))))
+			pv.NonNil = true
+			v = pv
+		}
+		fr.regs[fv] = v
+	}
 	e.entry = st.clone()
 	env := e.envAt(fr, st, fn.Pos())
 	if ct != nil {
